@@ -611,5 +611,210 @@ theorem stabRun_inv (ne np : Nat) (d : Det) (script : List Bool) (ops : List COp
           (stepOp_inv np (ne + np) d s0 s' op (hw op List.mem_cons_self) h0 h1) hs
   exact key ops hwf _ s ⟨Tab.ket0_valid _, rfl, ket0_stabReal _⟩ h
 
+/-! ### the classical record is the list of outcomes -/
+
+/-- the classical bookkeeping of a run: every measurement writes its outcome, in order -/
+def Book (s : RunState) : Prop := s.writes.map (·.2) = s.outs ∧ s.rand.length = s.outs.length
+
+theorem stepOp_book (np n : Nat) (d : Det) (s s' : RunState) (op : COp) (h : Book s)
+    (hs : stepOp np n d s op = some s') : Book s' := by
+  obtain ⟨h1, h2⟩ := h
+  cases op <;> simp only [stepOp] at hs <;> split at hs <;>
+    first
+    | (injection hs with hs
+       subst hs
+       simp [Book, RunState.measure, RunState.write, RunState.condX, RunState.condZ, RunState.resetQ, h1, h2])
+    | cases hs
+
+theorem stabRun_book (ne np : Nat) (d : Det) (script : List Bool) (ops : List COp) (s : RunState)
+    (h : stabRun ne np d script ops = some s) : Book s := by
+  unfold stabRun stabRunFrom at h
+  have key : ∀ (ops : List COp) (s0 s1 : RunState), Book s0 →
+      ops.foldlM (stepOp np (ne + np) d) s0 = some s1 → Book s1 := by
+    intro ops
+    induction ops with
+    | nil => intro s0 s1 h0 hs; simp only [List.foldlM] at hs; injection hs with hs; rw [← hs]; exact h0
+    | cons op rest ih =>
+      intro s0 s1 h0 hs
+      simp only [List.foldlM] at hs
+      cases h1 : stepOp np (ne + np) d s0 op with
+      | none => rw [h1] at hs; simp at hs
+      | some s' =>
+        rw [h1] at hs
+        simp only [Option.bind_eq_bind, Option.bind_some] at hs
+        exact ih s' s1 (stepOp_book np (ne + np) d s0 s' op h0 h1) hs
+  exact key ops _ s ⟨rfl, rfl⟩ h
+
+/-! ### the outcomes actually drawn -/
+
+/-- the outcomes of the random measurements of a run, in order -/
+def randOuts (s : RunState) : List Bool := ((s.rand.zip s.outs).filter (·.1)).map (·.2)
+
+/-- number of random measurements -/
+def nRand (s : RunState) : Nat := (s.rand.filter id).length
+
+/-- what a run has done with its setting and its drawn bits -/
+def Drawn (d : Det) (script0 : List Bool) (s : RunState) : Prop :=
+  s.rand.length = s.outs.length ∧
+  match d with
+  | .zero => s.script = script0 ∧ ∀ o, o ∈ randOuts s → o = false
+  | .one => s.script = script0 ∧ ∀ o, o ∈ randOuts s → o = true
+  | .prob => s.script = script0.drop (nRand s) ∧ randOuts s = (List.range (nRand s)).map fun i => script0.getD i false
+
+theorem randOuts_snoc (s : RunState) (h : s.rand.length = s.outs.length) (r o : Bool) (t' : Tab) (w : List (Nat × Bool))
+    (sc : List Bool) :
+    randOuts { t := t', writes := w, script := sc, rand := s.rand ++ [r], outs := s.outs ++ [o] }
+      = randOuts s ++ (if r then [o] else []) := by
+  unfold randOuts
+  simp only
+  rw [List.zip_append h]
+  cases r <;> simp
+
+theorem nRand_snoc (s : RunState) (r o : Bool) (t' : Tab) (w : List (Nat × Bool)) (sc : List Bool) :
+    nRand { t := t', writes := w, script := sc, rand := s.rand ++ [r], outs := s.outs ++ [o] }
+      = nRand s + (if r then 1 else 0) := by
+  unfold nRand
+  cases r <;> simp
+
+theorem measure_drawn (d : Det) (script0 : List Bool) (s : RunState) (q : Nat) (h : Drawn d script0 s) :
+    Drawn d script0 (s.measure d q).1 := by
+  obtain ⟨hl, hd⟩ := h
+  unfold RunState.measure
+  refine ⟨by simp [hl], ?_⟩
+  cases hp : s.t.pivot q with
+  | none =>
+    have e1 := randOuts_snoc s hl false (s.t.measScratch q).r
+    have e2 := nRand_snoc s false (s.t.measScratch q).r
+    cases d <;> simp only [Tab.zMeasure, hp, Option.isSome_none, RunState.offer, Bool.false_eq_true, if_false] <;>
+      simp only [e1, e2, Bool.false_eq_true, if_false, List.append_nil, Nat.add_zero] <;> exact hd
+  | some p =>
+    cases d with
+    | zero =>
+      simp only [Tab.zMeasure, hp, Option.isSome_some, RunState.offer]
+      rw [randOuts_snoc s hl true false]
+      refine ⟨hd.1, fun o ho => ?_⟩
+      simp only [if_true, List.mem_append, List.mem_singleton] at ho
+      rcases ho with ho | ho
+      · exact hd.2 o ho
+      · exact ho
+    | one =>
+      simp only [Tab.zMeasure, hp, Option.isSome_some, RunState.offer]
+      rw [randOuts_snoc s hl true true]
+      refine ⟨hd.1, fun o ho => ?_⟩
+      simp only [if_true, List.mem_append, List.mem_singleton] at ho
+      rcases ho with ho | ho
+      · exact hd.2 o ho
+      · exact ho
+    | prob =>
+      simp only [Tab.zMeasure, hp, Option.isSome_some, RunState.offer, if_true]
+      rw [randOuts_snoc s hl true, nRand_snoc s true]
+      simp only [if_true]
+      obtain ⟨hs, ho⟩ := hd
+      refine ⟨?_, ?_⟩
+      · rw [hs, List.tail_drop]
+      · rw [ho, List.range_succ, List.map_append, hs]
+        simp [List.headD_eq_head?_getD, List.getD_eq_getElem?_getD]
+
+theorem drawn_congr (d : Det) (script0 : List Bool) (s s' : RunState) (h1 : s'.rand = s.rand) (h2 : s'.outs = s.outs)
+    (h3 : s'.script = s.script) (h : Drawn d script0 s) : Drawn d script0 s' := by
+  unfold Drawn randOuts nRand at h ⊢
+  rw [h1, h2, h3]
+  exact h
+
+theorem stepOp_drawn (np n : Nat) (d : Det) (script0 : List Bool) (s s' : RunState) (op : COp) (hinv : RunInv n s)
+    (h : Drawn d script0 s) (hs : stepOp np n d s op = some s') : Drawn d script0 s' := by
+  obtain ⟨hv, hn, hr⟩ := hinv
+  subst hn
+  cases op with
+  | gate1 g q =>
+    simp only [stepOp] at hs
+    split at hs
+    · injection hs with hs; subst hs; exact drawn_congr d script0 s _ rfl rfl rfl h
+    · cases hs
+  | pdag q =>
+    simp only [stepOp] at hs
+    split at hs
+    · injection hs with hs; subst hs; exact drawn_congr d script0 s _ rfl rfl rfl h
+    · cases hs
+  | cnot c t =>
+    simp only [stepOp] at hs
+    split at hs
+    · injection hs with hs; subst hs; exact drawn_congr d script0 s _ rfl rfl rfl h
+    · cases hs
+  | cz c t =>
+    simp only [stepOp] at hs
+    split at hs
+    · injection hs with hs; subst hs; exact drawn_congr d script0 s _ rfl rfl rfl h
+    · cases hs
+  | wrap gs q =>
+    simp only [stepOp] at hs
+    split at hs
+    · injection hs with hs; subst hs; exact drawn_congr d script0 s _ rfl rfl rfl h
+    · cases hs
+  | measz q creg =>
+    simp only [stepOp] at hs
+    split at hs
+    · injection hs with hs; subst hs
+      exact drawn_congr d script0 _ _ rfl rfl rfl (measure_drawn d script0 s _ h)
+    · cases hs
+  | ccx c t creg =>
+    simp only [stepOp] at hs
+    split at hs
+    · injection hs with hs; subst hs
+      exact drawn_congr d script0 _ _ rfl rfl rfl (measure_drawn d script0 s _ h)
+    · cases hs
+  | ccz c t creg =>
+    simp only [stepOp] at hs
+    split at hs
+    · injection hs with hs; subst hs
+      exact drawn_congr d script0 _ _ rfl rfl rfl (measure_drawn d script0 s _ h)
+    · cases hs
+  | mcr c t creg =>
+    simp only [stepOp] at hs
+    split at hs
+    · next hq =>
+      injection hs with hs; subst hs
+      have hp := pivot_after_condX s hv hr d _ _ hq.1 hq.2
+      refine drawn_congr d script0 (s.measure d (qIndex np c)).1 _ rfl rfl ?_ (measure_drawn d script0 s (qIndex np c) h)
+      show (RunState.offer (((s.measure d (qIndex np c)).1.condX (s.measure d (qIndex np c)).2 (qIndex np t)).write creg
+          (s.measure d (qIndex np c)).2) d
+        ((((s.measure d (qIndex np c)).1.condX (s.measure d (qIndex np c)).2 (qIndex np t)).write creg
+          (s.measure d (qIndex np c)).2).t.pivot (qIndex np c)).isSome).2 = (s.measure d (qIndex np c)).1.script
+      have : (((s.measure d (qIndex np c)).1.condX (s.measure d (qIndex np c)).2 (qIndex np t)).write creg
+          (s.measure d (qIndex np c)).2).t.pivot (qIndex np c) = none := hp
+      rw [this]
+      cases d <;> rfl
+    · cases hs
+
+/-- **The outcomes actually drawn.**  After any run: under forced 0 / forced 1 every *random* measurement reported 0 / 1
+    and no drawn bit was read; under `"probabilistic"` the random measurements reported, in order, the first `k` drawn
+    bits (`false` beyond the end of the script) and exactly those `k` were consumed, `k` = number of random measurements.
+    (Deterministic measurements report what the state dictates under every setting: `measurement_setting_semantics`.) -/
+theorem stabRun_drawn (ne np : Nat) (d : Det) (script : List Bool) (ops : List COp) (hwf : ∀ op, op ∈ ops → op.WF np)
+    (s : RunState) (h : stabRun ne np d script ops = some s) : Drawn d script s := by
+  unfold stabRun stabRunFrom at h
+  have key : ∀ (ops : List COp), (∀ op, op ∈ ops → op.WF np) → ∀ (s0 s1 : RunState), RunInv (ne + np) s0 → Drawn d script s0 →
+      ops.foldlM (stepOp np (ne + np) d) s0 = some s1 → Drawn d script s1 := by
+    intro ops
+    induction ops with
+    | nil => intro _ s0 s1 _ h0 hs; simp only [List.foldlM] at hs; injection hs with hs; rw [← hs]; exact h0
+    | cons op rest ih =>
+      intro hw s0 s1 hi h0 hs
+      simp only [List.foldlM] at hs
+      cases h1 : stepOp np (ne + np) d s0 op with
+      | none => rw [h1] at hs; simp at hs
+      | some s' =>
+        rw [h1] at hs
+        simp only [Option.bind_eq_bind, Option.bind_some] at hs
+        exact ih (fun o ho => hw o (List.mem_cons_of_mem _ ho)) s' s1
+          (stepOp_inv np (ne + np) d s0 s' op (hw op List.mem_cons_self) hi h1)
+          (stepOp_drawn np (ne + np) d script s0 s' op hi h0 h1) hs
+  refine key ops hwf _ s ⟨Tab.ket0_valid _, rfl, Hilbert.ket0_stabReal _⟩ ?_ h
+  refine ⟨rfl, ?_⟩
+  cases d
+  · exact ⟨rfl, fun o ho => by simp [randOuts] at ho⟩
+  · exact ⟨rfl, fun o ho => by simp [randOuts] at ho⟩
+  · exact ⟨rfl, rfl⟩
+
 end DMH
 end Graphiq
